@@ -4,14 +4,19 @@
 
 namespace c04 {
 
-template <typename Char, std::size_t N>
+// Tr = void: the default traits of both libraries (etl::char_traits / std::char_traits); otherwise one user-supplied traits
+// class used by the etl string AND the std model (ci_traits: the comparison / search surface must go through Traits)
+template <typename Char, std::size_t N, typename Tr = void>
 struct Run {
-    using E  = etl::basic_inplace_string<Char, N>;
+    static constexpr bool CI = !std::is_void_v<Tr>;
+    using ET  = std::conditional_t<CI, Tr, etl::char_traits<Char>>;
+    using ST  = std::conditional_t<CI, Tr, std::char_traits<Char>>;
+    using E   = etl::basic_inplace_string<Char, N, ET>;
     static constexpr std::size_t N2 = N < 16 ? N + 16 : N + 1; // a second capacity, on the other side of the layout boundary where possible
-    using EO  = etl::basic_inplace_string<Char, N2>;
-    using M   = std::basic_string<Char>;
-    using SV  = etl::basic_string_view<Char>;
-    using SSV = std::basic_string_view<Char>;
+    using EO  = etl::basic_inplace_string<Char, N2, ET>;
+    using M   = std::basic_string<Char, ST>;
+    using SV  = etl::basic_string_view<Char, ET>;
+    using SSV = std::basic_string_view<Char, ST>;
     static_assert(E::npos == M::npos);
 
     // canaries around the two strings: ASan does not see an overflow that stays inside the enclosing object
@@ -34,8 +39,8 @@ struct Run {
     std::size_t room{0};
     std::string err;
     bool clamped{false};
-    bool ex_replace{false}, ex_rfind{false};
-    bool nt_middle{false}, nt_clamp{false}, nt_edge{false}, nt_empty{false}, nt_full{false}, nt_nul{false}, nt_hit{false}, nt_alias{false}, nt_extreme{false}, nt_big{false};
+    bool ex_replace{false}, ex_rfind{false}, ex_search_traits{false};
+    bool nt_middle{false}, nt_clamp{false}, nt_edge{false}, nt_empty{false}, nt_full{false}, nt_nul{false}, nt_hit{false}, nt_alias{false}, nt_extreme{false}, nt_big{false}, nt_huge{false}, nt_single_pass{false}, nt_case{false};
 
     // ------------------------------------------------------------------ the invariant the property promises after EVERY op
     static auto inv(char const* name, E const& e) -> std::string
@@ -95,8 +100,35 @@ struct Run {
         case 1: base = *my; break;
         default: break;
         }
-        if (base.size() >= len) { return base.substr(0, len); }
-        return base + gen_str<Char>(raw, len - base.size());
+        if (base.size() >= len) {
+            base = base.substr(0, len);
+        } else {
+            base += gen_str<M, CI>(raw, len - base.size());
+        }
+        if (((raw >> 2) & 1U) != 0) { flipcase(base); }
+        return base;
+    }
+    // ci_traits only: equal under the traits, different code units (flips the case of the ASCII letters)
+    auto flipcase(M& s) -> void
+    {
+        if constexpr (CI) {
+            for (auto& c : s) {
+                if (c >= 'a' && c <= 'z') {
+                    c = static_cast<Char>(c - 'a' + 'A');
+                    nt_case = true;
+                } else if (c >= 'A' && c <= 'Z') {
+                    c = static_cast<Char>(c - 'A' + 'a');
+                    nt_case = true;
+                }
+            }
+        }
+    }
+    // count arguments (see qcount): remembers that a huge count other than npos was used
+    auto qc(std::uint32_t raw, std::size_t avail, std::size_t pos = 0) -> std::size_t
+    {
+        auto c = qcount(raw, avail, pos);
+        nt_huge |= is_huge(c);
+        return c;
     }
     // search needle: empty, 1..3 characters, as long as the haystack, longer than the haystack
     auto needle(std::uint32_t raw) -> M
@@ -109,17 +141,30 @@ struct Run {
     // right-hand side of comparisons: the other string, the string itself, a near miss, unrelated
     auto cmp_other(std::uint32_t raw) -> M
     {
+        M r;
         switch (raw % 5) {
-        case 0: return *my;
-        case 1: return *mx;
+        case 0: r = *my; break;
+        case 1: r = *mx; break;
         case 2: {
-            M s = mx->substr(0, spread(raw) % (mx->size() + 1));
-            if (s.size() < N) { s.push_back(ch); }
-            return s;
+            r = mx->substr(0, spread(raw) % (mx->size() + 1));
+            if (r.size() < N) { r.push_back(ch); }
+            break;
         }
-        case 3: return mx->substr(0, spread(raw) % (mx->size() + 1));
+        case 3: r = mx->substr(0, spread(raw) % (mx->size() + 1)); break;
         default: return srcn(raw / 8, fitlen(raw / 64, N));
         }
+        if (((raw / 5) & 1U) != 0) { flipcase(r); }
+        return r;
+    }
+    // finding string.search.traits_eq (user-supplied traits only): a differing result of these functions is counted, not
+    // reported, while the finding is open; every other function and every default-traits configuration is unaffected
+    auto tolerated(char const* what) -> bool
+    {
+        if (!ex_search_traits) { return false; }
+        std::string w = what;
+        bool in_class = w.rfind("find(", 0) == 0 || w.rfind("find_first_of", 0) == 0 || w.rfind("find_last_of", 0) == 0 || w.rfind("find_last_not_of", 0) == 0 || w.rfind("contains", 0) == 0;
+        if (in_class) { vf::excluded_known(tag_search_traits); }
+        return in_class;
     }
     auto fail(std::string d) -> void
     {
@@ -152,6 +197,7 @@ struct Run {
     {
         ex_replace = vf::ctx().excluded(tag_replace);
         ex_rfind   = vf::ctx().excluded(tag_rfind);
+        ex_search_traits = CI && vf::ctx().excluded(tag_search_traits);
         std::uint32_t last_code = 0;
         for (auto const& o : k.ops) {
             bool tb = (o.c & 1U) != 0;
@@ -160,7 +206,7 @@ struct Run {
             mx      = tb ? &mb : &ma;
             my      = tb ? &ma : &mb;
             op      = o;
-            ch      = alpha<Char>(o.c >> 1);
+            ch      = alpha_cfg<Char, CI>(o.c >> 1);
             room    = N - mx->size();
             clamped = false;
             auto code = o.code % NCODES;
@@ -201,6 +247,9 @@ struct Run {
             vf::label("hist.embedded_nul", nt_nul);
             vf::label("hist.search_hit", nt_hit);
             vf::label("hist.self_referential_argument", nt_alias);
+            vf::label("hist.huge_count_not_npos", nt_huge);
+            vf::label("hist.single_pass_input_iterator", nt_single_pass);
+            if (CI) { vf::label("hist.ci_traits.argument_with_flipped_case", nt_case); }
             vf::label("hist.extreme_code_unit_in_string", nt_extreme);
             if (N >= 255) { vf::label("hist.capacity_255_256_reached_size_254_or_more", nt_big); }
         }
